@@ -201,6 +201,26 @@ def run(tier, fx=None, ck=None, control=False):
             te = true_edge(h, bi)
             if te and edge_dominates(h, te[1], site_block):
                 once = True
+        # the test as a filter in front of the loop: `for path in keys.iter().filter(|p| !self.loaded_modules.contains_key(*p)) { .. }`
+        if not once:
+            for bi, t in h.calls():
+                if not (t[1].get("u") or "").endswith("Iterator::filter") or len(t[2]) < 2 or t[2][1][0] not in ("c", "m"):
+                    continue
+                cd = h.defs().get(t[2][1][1][0], [])
+                if len(cd) != 1 or cd[0][1] == "T" or cd[0][2][0] != "agg" or not isinstance(cd[0][2][1], dict) or cd[0][2][1].get("k") != "closure":
+                    continue
+                body = fx.fns.get(cd[0][2][1].get("p"))
+                # the closure tests the table directly, or through a reference to the table that it captured (`&self.loaded_modules` as a capture)
+                captured = any(o[0] in ("c", "m") and field_of(h, o[1][0]) == LM for o in cd[0][2][2])
+                if body is None or not (table_calls(body, LM, {"contains_key"})
+                                        or (captured and any((t2[1].get("d") or "").endswith("::contains_key") for _, t2 in body.calls()))):
+                    continue
+                if not any(s_[0] == "a" and s_[2][0] == "un" and s_[2][1] == "Not" for bl_ in body.blocks for s_ in bl_["s"]):
+                    continue
+                for nb, nt in h.calls():
+                    if (nt[1].get("u") or "").endswith("Iterator::next") and nt[2] and nt[2][0][0] in ("c", "m") and t[3][0] in ancestors(h, nt[2][0][1][0]) \
+                            and h.dominates(nb, site_block):
+                        once = True
         deps = False
         why = "no `is_empty()` gate on a list of still-missing imports dominates the site"
         for bi, t in h.calls():
@@ -516,13 +536,31 @@ def run(tier, fx=None, ck=None, control=False):
                         if si == "T" and rv[1].get("d") in guarded_builders and rv[1].get("d") in list_builders:
                             return True
         return False
+    # helpers that wrap their parameter in the answer (`defer_program_until_imported(program, requests) -> StepResult`) are judged where they are called
+    import c10 as c10_
+    need_wrappers = {}
+    for p, f in scope.items():
+        if f.closure:
+            continue
+        for bl in f.blocks:
+            for s in bl["s"]:
+                if s[0] == "a" and s[2][0] == "agg" and s[2][1].get("k") == "adt" and s[2][1].get("p", "").endswith("StepResult") and s[2][1].get("v") == "NeedImports" \
+                        and s[2][2] and s[2][2][0][0] in ("c", "m"):
+                    r_ = c10_.copy_root_local(f, s[2][2][0][1][0])
+                    if 1 <= r_ <= f.argc:
+                        need_wrappers[p] = r_
     for p, f in sorted(scope.items()):
+        sites4 = []
         for bi, bl in enumerate(f.blocks):
             for s in bl["s"]:
-                if s[0] != "a" or s[2][0] != "agg" or s[2][1].get("k") != "adt" or not s[2][1].get("p", "").endswith("StepResult") \
-                        or s[2][1].get("v") != "NeedImports":
-                    continue
-                op = s[2][2][0] if s[2][2] else None
+                if s[0] == "a" and s[2][0] == "agg" and s[2][1].get("k") == "adt" and s[2][1].get("p", "").endswith("StepResult") and s[2][1].get("v") == "NeedImports" \
+                        and p not in need_wrappers:
+                    sites4.append((bi, s[2][2][0] if s[2][2] else None, s[3]))
+        for bi, t in f.calls():
+            if t[1].get("d") in need_wrappers and need_wrappers[t[1]["d"]] - 1 < len(t[2]):
+                sites4.append((bi, t[2][need_wrappers[t[1]["d"]] - 1], t[6]))
+        for bi, op, sp4 in sites4:
+            for s in [[None, None, None, sp4]]:
                 ok = False
                 origin = "?"
                 if op is not None and op[0] in ("c", "m"):
@@ -628,6 +666,12 @@ def run(tier, fx=None, ck=None, control=False):
                     for pl in F.rvalue_places(st[2]):
                         anc |= ancestors(r, pl[0])
                     writes.append((bi, bool(anc & set(path_params))))
+        # `self.current_module_path.replace(path.clone())` / `mem::replace(&mut self.current_module_path, Some(path))`: an install by call
+        for bi, t in r.calls():
+            d = t[1].get("d") or ""
+            if d.endswith(("Option::<T>::replace", "Option::<T>::insert", "mem::replace")) and len(t[2]) > 1 and t[2][0][0] in ("c", "m") \
+                    and field_of(r, t[2][0][1][0]) == "current_module_path" and t[2][1][0] in ("c", "m"):
+                writes.append((bi, bool(ancestors(r, t[2][1][1][0]) & set(path_params))))
         run_sites = [bi for bi, t in r.calls() if t[1].get("d") in body_runners]
         # `setup(..).and_then(|()| self.execute_program_bytecode(..))`: the body runs where the closure is handed to the adapter
         import re as _re
